@@ -358,6 +358,58 @@ def run(F, R, tier):
                             "connection is attributed to the previous caller" % (fname, mp, fl))
     R.floor("C06.R2", n_upd, 3, "record stores into audit_map / local_map")
 
+    # a pointer returned by bpf_map_lookup_elem(&M, ..) points INTO the map: it must not be read after bpf_map_delete_elem(&M, ..)
+    # later in the same function (another CPU may have re-used the element for a different connection by then)
+    n_ptr = 0
+    for fname, fn in fns.items():
+        ptrs = {}
+        for n in walk(fn):
+            if n.get("kind") == "VarDecl" and n.get("inner"):
+                init = strip(n["inner"][-1])
+                if init.get("kind") == "CallExpr" and strip(init["inner"][0]).get("ref") == "bpf_map_lookup_elem":
+                    ptrs[n["name"]] = expr_str(init["inner"][1])
+        if not ptrs:
+            continue
+
+        def later_statements(stmt_list_chain):
+            """statements that execute after the delete: following siblings at every nesting level"""
+            for stmts, idx in stmt_list_chain:
+                for s in stmts[idx + 1:]:
+                    yield s
+
+        def rec(stmt, chain):
+            k = stmt.get("kind")
+            if k == "CompoundStmt":
+                kids = stmt.get("inner", [])
+                for i, s in enumerate(kids):
+                    yield from rec(s, chain + [(kids, i)])
+                return
+            if k == "IfStmt":
+                kids = stmt["inner"]
+                # the condition belongs to this statement; branches are nested statements
+                for c in kids[1:]:
+                    yield from rec(c, chain)
+                return
+            yield stmt, chain
+        b = body_of(fn)
+        for stmt, chain in (rec(b, []) if b else []):
+            for n in walk(stmt):
+                if n.get("kind") == "CallExpr" and strip(n["inner"][0]).get("ref") == "bpf_map_delete_elem":
+                    mp = expr_str(n["inner"][1])
+                    victims = [v for v, m_ in ptrs.items() if m_ == mp]
+                    for v in victims:
+                        n_ptr += 1
+                        uses = []
+                        for s in later_statements(chain):
+                            for x in walk(s):
+                                if x.get("kind") == "DeclRefExpr" and x.get("ref") == v:
+                                    uses.append(x.get("line") or s.get("line"))
+                        R.check(not uses, "C06.R2", R.key("C06.R2", fname, "no-use-after-delete:%s" % v), "%s:%s" % (src, n.get("line")),
+                                "%s: `%s` (a pointer into %s) is not used after the element is deleted" % (fname, v, mp),
+                                "%s: `%s` points into %s and is still used (line(s) %s) after bpf_map_delete_elem(%s): the record written "
+                                "from it can be another connection's" % (fname, v, mp, uses, mp))
+    R.floor("C06.R2", n_ptr, 1, "map-element pointers live across a delete of their map")
+
     # ------------------------------------------------------------------ R3 layouts
     lay = E["layouts"]
     td = E["typedefs"]
